@@ -74,7 +74,9 @@ def validate_cases(draw):
     else:
         np_ = draw(st.text(alphabet=st.sampled_from(list("0123456789")) | st.characters(blacklist_categories=("Cs",)),
                            max_size=5))
-    how = draw(st.sampled_from(["set_code", "set_code", "choose_nameplate"]))
+    how = draw(st.sampled_from(["set_code", "set_code", "choose_nameplate", "xfer_receive", "xfer_send"]))
+    if how.startswith("xfer") and draw(st.integers(0, 3)) == 0:
+        np_, words = "", ""            # the convenience API handed an empty string as the code
     return dict(part="validate", np=np_, words=words, how=how, mode=draw(st.sampled_from(["delegate", "deferred"])))
 
 
@@ -190,6 +192,8 @@ def run_validate(c, res):
     from wormhole.errors import KeyFormatError
     np_, words = c["np"], c["words"]
     code = np_ + "-" + words
+    if c["how"].startswith("xfer"):
+        return run_validate_xfer(c, res, "" if (np_ == "" and words == "") else code)
     if c["how"] == "set_code":
         # in a code the nameplate is what precedes the FIRST hyphen: a generated "nameplate" that contains one
         # ("0-") just yields the nameplate "0" and a password starting with a hyphen - a well-formed code
@@ -245,6 +249,52 @@ def run_validate(c, res):
         W.close()
     res.nontrivial = not ascii_ok or " " in code
     res.features = dict(part="validate", how=c["how"], cls=_np_class(np_, code), mode=c["mode"])
+
+
+def run_validate_xfer(c, res, code):
+    """the same rejection rule through the convenience API wormhole.xfer_util.send()/receive(): an explicit code that is
+    malformed (including the empty string) fails with KeyFormatError and nothing is sent because of the call"""
+    from simworld import World
+    from wormhole import xfer_util
+    from wormhole.errors import KeyFormatError
+    np_ = code.split("-", 1)[0]
+    ascii_ok = ref_valid_nameplate(np_)
+    must_reject = (" " in code) or not ascii_ok
+    unicode_digits = (not ascii_ok) and len(np_) > 0 and all(unicodedata.category(ch) == "Nd" for ch in np_)
+    W = World(b"c19x" + code.encode("utf-8", "surrogatepass"))
+    try:
+        node = W.node("x")
+        out = []
+        before = len(W.cmdlog)
+        try:
+            if c["how"] == "xfer_receive":
+                d = xfer_util.receive(node, "appid", "ws://sim:4000/v1", code)
+            else:
+                d = xfer_util.send(node, "appid", "ws://sim:4000/v1", "data", code)
+            d.addBoth(out.append)
+        except Exception as ex:
+            out.append(failure_of(ex))
+        W.settle(max_steps=300)
+        sent = [m.get("type") for (n_, k_, m) in W.cmdlog[before:] if m.get("type") not in ("bind",)]
+        failed = bool(out) and hasattr(out[0], "value")
+        if must_reject and not unicode_digits:
+            if not failed or not isinstance(out[0].value, KeyFormatError):
+                res.violate("validate", "xfer_util.%s(code=%r): %s; commands sent: %r" % (
+                    c["how"][5:], code, "failed with %r" % out[0].value if failed else "did not fail", sent),
+                    input_class="malformed-accepted:xfer:%s" % ("empty" if code == "" else _np_class(np_, code)))
+            elif any(t in ("claim", "allocate", "open", "add") for t in sent):
+                res.violate("validate", "xfer_util.%s(code=%r) raised KeyFormatError but still sent %r" % (c["how"][5:], code, sent),
+                            input_class="sent-despite-KeyFormatError")
+        W.settle(max_steps=200)
+    finally:
+        W.close()
+    res.nontrivial = must_reject
+    res.features = dict(part="validate", how=c["how"], cls=("empty" if code == "" else _np_class(np_, code)), mode="deferred")
+
+
+def failure_of(ex):
+    from twisted.python import failure
+    return failure.Failure(ex)
 
 
 def _np_class(np_, code):
